@@ -9,12 +9,39 @@ Alphabet  environment answer per (level, batch): the statistical regime of the s
 Bound     all choice sequences with at most D deviations from the default regime (D = 2 quick, 3 thorough) for every
           configuration of the lattice {initial_level, maximum_level, initial_mc_paths, rmse, rates given/regressed,
           control variates none/one, payoff scalar/2-vector, discount factor, notional}; horizon 40 batches per level.
+Options   nb_of_processes in {1, 2, 3, None}: for every value but 1 the engine takes its multiprocessing branch
+          (pool.map_async + callback); the pool is mlmc_driver.SimulatedPool (workers = per-chunk dill copies of the task,
+          results in index order, one callback in the parent). Subs "adaptive-pool" / "fixed-pool": every configuration of
+          the one-deviation lattice with 2 processes, a stated sub-lattice with None (and 3 in thorough), the fixed-level
+          variant with 2 and None.
 Oracle    reference model = plain list of (fine, coarse) per level appended at every simulate call. After every
           set_mlmc_results and at return: Nl[l] == len(ref[l]); the rows of level l's payoff array are exactly the
           discounted notional-scaled payoffs of ref[l], in order (no placeholder row, nothing missing / duplicated /
-          overwritten); coarse == 0 at level 0; price(no cv) == sum_l mean(fine-coarse); Nl, ml, vl, mean_level_l,
-          var_level_l, kurtosis, cl, cost equal the library's own moment functions applied to the reference lists.
-Not covered: nb_of_processes > 1 (C08), real coupling processes (C03), spot statistics plots.
+          overwritten); coarse == 0 at level 0; price(no cv) == sum_l mean(fine-coarse); at return the public accessors
+          simulation_payoff_with_fine_process / _coarse_process (whole and with start / end) give the reference rows; Nl, ml,
+          vl, mean_level_l, var_level_l, kurtosis, consistency_check, cl, cost equal PLAIN NUMPY statistics of the reference
+          lists (independent of the library's moment helpers; tolerances = forward error bounds of the non-centred-moment
+          formulas, a few ulps of mean^2; consistency_check elements whose denominator is not determined to 1e-3 by those
+          bounds are counted `cc-degenerate`, not judged).
+Reading   the reported quantities are lazy and memoised, so the ORDER of the reads is part of the history:
+histories   (a) every run: the returned results object is read in the canonical order;
+            (b) every run: a second results object of the run (set_mlmc_results again, what the engine does before
+                returning) is left unread and read - scripts' order: consistency_check first - only after the NEXT run of
+                the case has been priced and read (another engine / statistics / results object used in between);
+            (c) first run of every case: all 30 ordered pairs (q1, q2) of the six moment-based quantities read first, the
+                rest after in canonical order, each on a fresh results object;
+            (d) subs "*-orders": all 720 orders of the six quantities, for three configurations (adaptive with late
+                levels, fixed-level, adaptive through the pool), sharded by the first quantity.
+Engine    subs "*-reprice": the Engine object has priced before (prior = adaptive run with another rmse, or fixed-level
+histories run; all regimes default); the run under test is its SECOND pricing and must report its own samples only.
+With control variates: stored payoff and control rows, price(no cv), Nl, cl, cost as above; of the adjusted samples only
+          the bookkeeping (one adjusted row per simulated sample; price() = sum of the per-level means of the adjusted rows).
+Not covered: the random streams of the pool workers (C08), real coupling processes (C03), spot statistics plots, the
+          values of the control-variate adjusted samples and the results computed from them (C07), NonCenteredMoments read
+          directly in an order MLMCResults never uses (ncm_third / ncm_fourth first raise TypeError on the pinned tree: not a
+          reported quantity), results objects of earlier passes of the same run read after later passes (they alias the
+          engine's Nl / sum_cost arrays; the statement is about what a run reports), the adaptive algorithm with
+          initial_level < 2 (Engine.price raises IndexError in the bias test before anything is reported: C06's exclusion).
 """
 from __future__ import annotations
 
@@ -30,19 +57,27 @@ PID = "C05"
 LEVEL = "model_checking"
 RULE = (
     "every configuration of the stated lattice x every sequence of regime answers with at most D deviations from the "
-    "default; one evaluation = one complete run of the real Engine.price (or the fixed-level variant); a configuration is "
+    "default, x the stated values of nb_of_processes; one evaluation = one level (or one reported quantity, or one accessor "
+    "call) compared at one observation point of a complete run of the real Engine.price (or the fixed-level variant); every "
+    "run's results are read in the canonical order and, on a second results object, after the next run; the first run of "
+    "a case is read in all 30 first-pair orders, the '-orders' cases in all 720 orders; a configuration is "
     "non-trivial when its runs produced at least two distinct loop trajectories (sequence of (levels, Nl) at each "
-    "set_mlmc_results) or, for the fixed-level variant, at least one compared level; states = distinct loop trajectories, "
-    "transitions = choice points taken"
+    "set_mlmc_results) or, for the fixed-level variant, at least one compared level or, for an '-orders' case, its 120 "
+    "orders were compared; states = distinct loop trajectories, transitions = choice points taken"
 )
 ASSUMPTIONS = [
     "the coupling process is a scripted stand-in (mc/mlmc_driver.py) implementing the interface the engine uses; the "
     "engine, statistics, path managers, product and control variates are the real ones",
-    "single process (nb_of_processes=1); the worker pool is the subject of C08",
+    "nb_of_processes != 1 runs the engine's pool branch on a simulated pool (mc/mlmc_driver.SimulatedPool: per-chunk dill "
+    "copies of the task, chunks run one after the other in index order, results in index order, callback in the parent); "
+    "the random streams of real workers are the subject of C08",
     "horizon: a run is stopped after 40 batches at one level and reported under C06",
 ]
 CHUNK = 1
 HORIZON = 40
+# the six reported quantities computed lazily (and memoised) from the moments of the samples, in the canonical reading order
+QUANT = ("ml", "vl", "mean_level_l", "var_level_l", "kurtosis", "consistency_check")
+U = 2.220446049250313e-16
 
 
 class Horizon(Exception):
@@ -105,12 +140,49 @@ def cases(tier):
                     out.append(dict(c, bound=3, shard=[i, 16]))
     # fixed-level variant; initial_level <= maximum_level (a configuration with initial_level > maximum_level is not a
     # meaningful multilevel configuration and is outside the alphabet)
+    fixed = []
     for (L0, Lmax) in ((0, 0), (0, 1), (1, 1), (2, 3), (1, 3)):
         for N0 in (1, 2, 7):
             for cv in ("none", "one"):
                 for payoff in ("forward", "call2"):
-                    out.append({"sub": "fixed", "L0": L0, "Lmax": Lmax, "N0": N0, "cv": cv, "payoff": payoff, "df": 0.9,
-                                "notional": 2.5, "bound": 2 if thorough else 1, "shard": [0, 1]})
+                    fixed.append({"sub": "fixed", "L0": L0, "Lmax": Lmax, "N0": N0, "cv": cv, "payoff": payoff, "df": 0.9,
+                                  "notional": 2.5, "bound": 2 if thorough else 1, "shard": [0, 1]})
+    out += fixed
+    # NOTE: C06 re-uses the cases above whose sub is exactly "adaptive"; everything below has another sub.
+    # the multiprocessing branch of compute_level_l (nb_of_processes != 1, None included) on the simulated pool
+    for c in configs(False):
+        out.append(dict(c, sub="adaptive-pool", procs=2, bound=1, shard=[0, 1]))
+    for c in configs(False):
+        if c["cv"] == "none" and c["payoff"] == "forward" and c["rmse"] == 0.5 and c["N0"] == 5 and c["rates"] == "given":
+            for procs in ((None, 3) if thorough else (None,)):
+                out.append(dict(c, sub="adaptive-pool", procs=procs, bound=1, shard=[0, 1]))
+    if thorough:
+        for c in configs(False):
+            if is_deep(c, False):
+                n = 8
+                for i in range(n):
+                    out.append(dict(c, sub="adaptive-pool", procs=2 if c["N0"] == 2 else None, bound=2, shard=[i, n]))
+    for c in fixed:
+        for procs in (2, None):
+            out.append(dict(c, sub="fixed-pool", procs=procs))
+    # histories on a re-used Engine object: it has priced before (adaptive with another rmse / fixed-level), all regimes default
+    for c in configs(False):
+        if c["cv"] == "none" and c["payoff"] == "forward" and c["rmse"] == 0.5 and c["N0"] == 5 and c["rates"] == "given":
+            for prior in ("adaptive", "fixed"):
+                out.append(dict(c, sub="adaptive-reprice", prior=prior, bound=1, shard=[0, 1]))
+            if (c["L0"], c["Lmax"]) == (2, 3):
+                out.append(dict(c, sub="adaptive-pool-reprice", prior="adaptive", procs=2, bound=1, shard=[0, 1]))
+    for c in fixed:
+        if c["N0"] == 7 and c["cv"] == "none" and c["payoff"] == "forward":
+            for prior in (("fixed", "adaptive") if c["L0"] >= 2 else ("fixed",)):
+                out.append(dict(c, sub="fixed-reprice", prior=prior))
+    # every order of reading the six moment-based reported quantities (sharded by the first one)
+    base = {"L0": 2, "Lmax": 4, "N0": 5, "rmse": 0.3, "rates": "given", "cv": "none", "payoff": "forward", "df": 0.9,
+            "notional": 2.5, "bound": 0, "shard": [0, 1]}
+    for extra in ({"sub": "adaptive-orders"}, {"sub": "fixed-orders", "L0": 1, "Lmax": 3, "N0": 7},
+                  {"sub": "adaptive-pool-orders", "procs": 2}):
+        for q in QUANT:
+            out.append(dict(base, **extra, orders_first=q))
     return out
 
 
@@ -132,7 +204,7 @@ def build_engine(case, chooser):
         initial_mc_paths=case["N0"],
         seed=None,
         control_variates=cv,
-        nb_of_processes=1,
+        nb_of_processes=case.get("procs", 1),
     )
     eng = Engine(configuration=conf, coupling_process=coupling)
     return eng, rec, product, coupling
@@ -167,10 +239,8 @@ def cv_ref_arrays(case, rec, level):
     return out
 
 
-def compare_state(sh, case, rec, stats, Nl, sum_cost, where, variant):
+def compare_state(sh, case, rec, stats, Nl, sum_cost, where, variant, final=None):
     """The C05 oracle on one observation point. Returns a short trajectory token."""
-    from rpylib.montecarlo.statistic.statistic import MLMCResults
-
     tag = f"{variant}:{where}"
     cvk = "cv" if case["cv"] != "none" else "nocv"
     dimk = "dim1" if case["payoff"] == "forward" else "dim2"
@@ -250,35 +320,193 @@ def compare_state(sh, case, rec, stats, Nl, sum_cost, where, variant):
                     sh.violation(f"C05:{variant}:reported-{name}-not-from-the-simulated-samples",
                                  f"{tag}: reported {name} = {a.tolist()} but the simulated samples give {b.tolist()}",
                                  {"Nl": Nl.tolist(), "regimes": rec.regime_log})
-    if res is not None and case["cv"] == "none" and all(f.size for f in ref_fine) and where == "return":
+    if where == "return":
+        # the public accessors of the stored samples, whole and with the start / end options
+        for level in range(min(nlev, len(stats.mc_statistics))):
+            ref = ref_arrays(case, rec, level)
+            for comp, col, fun in (("fine", 0, stats.simulation_payoff_with_fine_process),
+                                   ("coarse", 1, stats.simulation_payoff_with_coarse_process)):
+                for (a0, b0) in ((None, None), (1, None), (None, -1), (0, 1), (1, 3)):
+                    kind = "whole" if (a0, b0) == (None, None) else "start-end"
+                    try:
+                        g = np.asarray(fun(level, a0, b0, no_control_variates=True), dtype=float)
+                    except Exception as e:  # noqa
+                        sh.violation(f"C05:{variant}:payoff-accessor-raises:{comp}:{kind}:{type(e).__name__}", f"{tag}: {e!r}", None)
+                        continue
+                    r = ref[a0:b0, 0, col]
+                    sh.count("evaluations")
+                    if g.shape != r.shape or (g.size and not np.allclose(g, r, rtol=1e-12, atol=0.0)):
+                        sh.violation(f"C05:{variant}:payoff-accessor-differs-from-samples:{comp}:{kind}",
+                                     f"{tag}: level {level}: simulation_payoff_with_{comp}_process(start={a0}, end={b0}) = "
+                                     f"{g[:4].tolist()}... ({g.shape}) but the simulated samples give {r[:4].tolist()}... ({r.shape})",
+                                     {"Nl": Nl.tolist(), "regimes": rec.regime_log})
+    if res is not None and all(f.size for f in ref_fine) and where == "return":
+        # counts and costs (whatever the control variates)
         cost_ref = np.array([float(2 ** l) * len(rec.samples.get(l, [])) for l in range(nlev)])
+        detail = {"Nl": Nl.tolist(), "regimes": rec.regime_log}
         with np.errstate(all="ignore"):
-            ref_res = MLMCResults(Nl=np.array([len(f) for f in ref_fine]), sum_cost=cost_ref, all_pl_fine=ref_fine,
-                                  all_pl_coarse=ref_coarse)
-            for name in ("ml", "vl", "mean_level_l", "var_level_l", "kurtosis", "cl", "cost"):
+            n_ref = np.array([float(len(f)) for f in ref_fine])
+            for name, b in (("cl", cost_ref / n_ref), ("cost", float(np.sum(cost_ref)))):
                 a = np.asarray(getattr(res, name), dtype=float)
-                b = np.asarray(getattr(ref_res, name), dtype=float)
-                if a.shape != b.shape or not np.allclose(a, b, rtol=1e-10, atol=1e-12, equal_nan=True):
+                b = np.asarray(b, dtype=float)
+                sh.count("evaluations")
+                if a.shape != b.shape or not np.allclose(a, b, rtol=1e-12, atol=0.0, equal_nan=True):
                     sh.violation(f"C05:{variant}:reported-{name}-not-from-the-simulated-samples",
-                                 f"{tag}: reported {name} = {a.tolist()} but the same formula on the simulated samples gives {b.tolist()}",
-                                 {"Nl": Nl.tolist(), "regimes": rec.regime_log})
-        if not np.array_equal(np.asarray(res.Nl, dtype=float), np.asarray([len(f) for f in ref_fine], dtype=float)):
+                                 f"{tag}: reported {name} = {a.tolist()} but the simulated samples give {b.tolist()}", detail)
+        if not np.array_equal(np.asarray(res.Nl, dtype=float), n_ref):
             sh.violation(f"C05:{variant}:reported-Nl-not-the-simulated-counts",
                          f"{tag}: mlmc_results.Nl = {np.asarray(res.Nl).tolist()} but simulated {[len(f) for f in ref_fine]}", None)
+    if case["cv"] != "none" and where == "return":
+        # the control-variate adjusted samples (what price() and the results use then): one row per simulated sample, and
+        # price() is the sum of the per-level means of exactly those rows (their values are the subject of C07)
+        try:
+            p_cv, p_sum, p_big = stats.price(), 0.0, 1.0
+            for level in range(min(nlev, len(stats.mc_statistics))):
+                gf = np.asarray(stats.simulation_payoff_with_fine_process(level), dtype=float)
+                gc = np.asarray(stats.simulation_payoff_with_coarse_process(level), dtype=float)
+                n_ref = len(rec.samples.get(level, []))
+                sh.count("evaluations")
+                if gf.shape != (n_ref,) or gc.shape != (n_ref,):
+                    sh.violation(f"C05:{variant}:cv-adjusted-rows-differ-from-simulated-count:{'level0' if level == 0 else 'level>0'}",
+                                 f"{tag}: level {level}: {gf.shape[0]} adjusted fine rows, {gc.shape[0]} coarse, {n_ref} simulated samples",
+                                 {"regimes": rec.regime_log})
+                if gf.size:
+                    p_sum += float(np.mean(gf) - np.mean(gc))
+                    p_big += float(np.max(np.abs(gf)) + np.max(np.abs(gc)))
+            if not core.close(float(np.ravel(p_cv)[0]), p_sum, rtol=1e-10, atol=64 * U * p_big):
+                sh.violation(f"C05:{variant}:cv-adjusted-price-differs-from-sum-of-level-means:{dimk}",
+                             f"{tag}: price() = {p_cv!r} but the per-level means of the adjusted samples sum to {p_sum!r}",
+                             {"regimes": rec.regime_log})
+        except Exception as e:  # noqa
+            sh.violation(f"C05:{variant}:cv-adjusted-price-raises:{type(e).__name__}", f"{tag}: {e!r}", None)
+    if res is not None and case["cv"] == "none" and all(f.size for f in ref_fine) and where == "return":
+        refm = ref_moments(ref_fine, ref_coarse)
+        detail = {"Nl": Nl.tolist(), "regimes": rec.regime_log}
+        wrong = compare_reported(sh, res, refm, QUANT, f"C05:{variant}:reported-%s-not-from-the-simulated-samples", tag, detail)
+        if final is not None:
+            # a quantity already wrong in the canonical order is not judged again by the reading-history sub-checks
+            final["refm"], final["wrong"] = refm, tuple(sorted(wrong))
     return (nlev, tuple(int(x) for x in Nl))
 
 
+def ref_moments(ref_fine, ref_coarse):
+    """Plain numpy statistics of the reference samples, with forward error bounds of the library's route (non-centred moments
+    rebuilt from central ones and subtracted again): name -> (values, absolute tolerances)."""
+    vals = {k: [] for k in ("ml", "vl", "mean_level_l", "var_level_l", "kurtosis")}
+    tols = {k: [] for k in vals}
+    with np.errstate(all="ignore"):
+        for f, c in zip(ref_fine, ref_coarse):
+            d = f - c
+            big = float(max(np.max(np.abs(f)), np.max(np.abs(c)), 0.0))
+            delta = 8 * U * big  # absolute uncertainty of one fine-minus-coarse sample (the stored rows agree to 1e-12 rel.)
+            mu = float(np.mean(d))
+            v = float(np.mean((d - mu) ** 2))
+            m4 = float(np.mean((d - mu) ** 4))
+            sd = math.sqrt(v)
+            mf = float(np.mean(f))
+            vf = float(np.mean((f - mf) ** 2))
+            den = max(1.0, v) ** 2
+            vals["ml"].append(abs(mu))
+            tols["ml"].append(delta + 1e-10 * abs(mu))
+            vals["vl"].append(v)
+            tols["vl"].append(16 * U * (mu * mu + v) + 4 * delta * (sd + delta) + 1e-9 * v)
+            vals["mean_level_l"].append(mf)
+            tols["mean_level_l"].append(8 * U * big + 1e-10 * abs(mf))
+            vals["var_level_l"].append(vf)
+            tols["var_level_l"].append(16 * U * (mf * mf + vf) + 1e-9 * vf)
+            vals["kurtosis"].append(m4 / den)
+            tols["kurtosis"].append((64 * U * (abs(mu) + sd) ** 4 + 8 * delta * (abs(mu) + sd + delta) ** 3) / den + 1e-9 * m4 / den)
+        out = {k: (np.array(vals[k]), np.array(tols[k])) for k in vals}
+        # consistency_check (levels 1..): (ml_l - mean_l + mean_0) / (3 (sqrt vl_l + sqrt var_l + sqrt var_0))
+        (ml, tml), (vl, tvl), (me, tme), (va, tva) = (out[k] for k in ("ml", "vl", "mean_level_l", "var_level_l"))
+        num = ml[1:] - me[1:] + me[:1]
+        tnum = tml[1:] + tme[1:] + tme[:1]
+
+        def lo_hi(x, t):
+            return np.sqrt(np.maximum(x - t, 0.0)), np.sqrt(x + t)
+
+        l1, h1 = lo_hi(vl[1:], tvl[1:])
+        l2, h2 = lo_hi(va[1:], tva[1:])
+        l3, h3 = lo_hi(va[:1], tva[:1])
+        lo, hi = 3 * (l1 + l2 + l3), 3 * (h1 + h2 + h3)
+        den = 3 * (np.sqrt(vl[1:]) + np.sqrt(va[1:]) + np.sqrt(va[:1]))
+        ok = (lo > 0) & ((hi - lo) <= 1e-3 * lo)
+        cc = num / den
+        tcc = np.where(ok, (np.abs(num) * (hi - lo) / lo + tnum) / np.where(ok, lo, 1.0) + 1e-9 * np.abs(cc), np.inf)
+        out["consistency_check"] = (cc, tcc)
+    return out
+
+
+def compare_reported(sh, res, refm, order, keyfmt, tag, detail, stop_at_first=False, unjudged=()):
+    """Read the quantities `order` of the results object, in that order, and compare each with the numpy reference (the
+    quantities `unjudged` are read - the read is part of the history - but not compared). Returns the names found wrong."""
+    bad = set()
+    with np.errstate(all="ignore"):
+        for name in order:
+            b, t = refm[name]
+            try:
+                a = np.asarray(getattr(res, name), dtype=float)
+            except Exception as e:  # noqa
+                sh.violation((keyfmt % name) + f":raises-{type(e).__name__}", f"{tag}: reading {name}: {e!r}", detail)
+                bad.add(name)
+                continue
+            if name in unjudged:
+                continue
+            sh.count("evaluations")
+            if name == "consistency_check":
+                sh.count("cc-degenerate", int(np.sum(~np.isfinite(t))))
+            if a.shape != b.shape:
+                sh.violation(keyfmt % name, f"{tag}: reported {name} has shape {a.shape}, {b.shape} levels were simulated", detail)
+                bad.add(name)
+                continue
+            judged = np.isfinite(t)
+            err = np.abs(a - b)
+            wrong = judged & ~((err <= t) | (np.isnan(a) & np.isnan(b)) | (a == b))
+            if np.any(wrong):
+                i = int(np.argmax(wrong))
+                lvl = i + 1 if name == "consistency_check" else i
+                sh.violation(keyfmt % name,
+                             f"{tag}: reported {name} = {a.tolist()} but the simulated samples give {b.tolist()} "
+                             f"(level {lvl}: off by {float(err[i])!r}, bound {float(t[i])!r}; read order {list(order)})", detail)
+                bad.add(name)
+                if stop_at_first:
+                    break
+    return bad
+
+
+def variant_of(case):
+    entry = "adaptive" if case["sub"].startswith("adaptive") else "fixed"
+    return entry + ("-pool" if case.get("procs", 1) != 1 else "") + (f"-after-{case['prior']}" if case.get("prior") else "")
+
+
+class _DefaultAnswers:
+    def choose(self, arity, label=""):
+        return 0
+
+
+def price(eng, product, entry, rmse):
+    return eng.price(product, rmse) if entry == "adaptive" else eng.price_with_constant_mc_paths_and_level(product)
+
+
 def run_once(sh, case, chooser):
-    """One complete execution; returns trajectory (tuple) and outcome label."""
+    """One complete execution; returns trajectory (tuple), outcome label, the recorder and - for a run that returned - what
+    the reading-history sub-checks need (statistics object, final Nl / sum_cost, numpy reference of the reported quantities)."""
+    import contextlib
+    import warnings
+
     from rpylib.montecarlo.statistic.statistic import MLMCStatistics
 
     eng, rec, product, coupling = build_engine(case, chooser)
-    variant = case["sub"]
+    variant = variant_of(case)
+    adaptive = variant.startswith("adaptive")
+    pool = case.get("procs", 1) != 1
     traj = []
+    last = {}
     orig = MLMCStatistics.set_mlmc_results
 
     def observed(self, Nl, sum_cost):
         orig(self, Nl, sum_cost)
+        last["Nl"], last["sum_cost"] = np.array(Nl, copy=True), np.array(sum_cost, copy=True)
         traj.append(compare_state(sh, case, rec, self, Nl, sum_cost, f"set_mlmc_results#{len(traj)}", variant))
 
     # horizon guard through the recorder's chooser
@@ -290,48 +518,121 @@ def run_once(sh, case, chooser):
             raise Horizon(label)
         return real_choose(arity, label)
 
-    chooser.choose = guarded
-    MLMCStatistics.set_mlmc_results = observed
     outcome = "returned"
+    final = None
+    stats = None
     try:
-        with np.errstate(all="ignore"):
-            import warnings
-
-            with warnings.catch_warnings():
-                warnings.simplefilter("ignore")
-                if variant == "adaptive":
-                    stats = eng.price(product, case["rmse"])
-                else:
-                    stats = eng.price_with_constant_mc_paths_and_level(product)
-        Nl_final = np.asarray(stats.mlmc_results.Nl)
-        compare_state(sh, case, rec, stats, Nl_final, None, "return", variant)
-    except Horizon:
-        outcome = "horizon"
-        sh.count("horizon-runs")
+        with np.errstate(all="ignore"), warnings.catch_warnings():
+            warnings.simplefilter("ignore")
+            with (D.pool_installed() if pool else contextlib.nullcontext()) as pools:
+                if case.get("prior"):
+                    # history: this Engine object has priced before; the reference model starts again afterwards
+                    rec.chooser = _DefaultAnswers()
+                    price(eng, product, case["prior"], 0.3)
+                    for d in (rec.samples, rec.batches, rec.pending, rec.regime):
+                        d.clear()
+                    for lst in (rec.regime_log, rec.next_level_calls, rec.simulate_levels, rec.events):
+                        del lst[:]
+                    rec.chooser = chooser
+                    if pool:
+                        del pools.log[:]
+                chooser.choose = guarded
+                MLMCStatistics.set_mlmc_results = observed
+                try:
+                    stats = price(eng, product, "adaptive" if adaptive else "fixed", case.get("rmse"))
+                except Horizon:
+                    outcome = "horizon"
+                    sh.count("horizon-runs")
+                if pool:
+                    sh.count("pool-map-calls", len(pools.log))
+                    sh.count("pool-chunks", sum(c for (_, _, c) in pools.log))
+                    if stats is not None and not pools.log:
+                        sh.violation(f"C05:{variant}:harness:pool-branch-not-taken",
+                                     f"nb_of_processes={case.get('procs')!r} but the engine never used the pool", None)
     finally:
         MLMCStatistics.set_mlmc_results = orig
         chooser.choose = real_choose
-    return tuple(traj), outcome, rec
+    if stats is not None:
+        with np.errstate(all="ignore"), warnings.catch_warnings():
+            warnings.simplefilter("ignore")
+            final = {"stats": stats, "variant": variant, "Nl": last.get("Nl"), "sum_cost": last.get("sum_cost"),
+                     "regimes": rec.regime_log}
+            Nl_final = np.asarray(stats.mlmc_results.Nl)
+            compare_state(sh, case, rec, stats, Nl_final, None, "return", variant, final)
+    return tuple(traj), outcome, rec, final
+
+
+def fresh_results(final):
+    """A new, unread results object of a finished run, through the public route the engine itself uses before returning."""
+    final["stats"].set_mlmc_results(np.array(final["Nl"], copy=True), np.array(final["sum_cost"], copy=True))
+    return final["stats"].mlmc_results
 
 
 def check_case(sh, case):
+    import warnings
+
     trajectories = set()
+    state = {"first": True, "held": None}
+    compared = [0]
+
+    def read_held():
+        # (b) the results object left unread by the previous run, read now that another run has been priced and read
+        held = state["held"]
+        if held is not None:
+            res, refm, variant, regimes, wrong = held
+            compare_reported(sh, res, refm, ("consistency_check", "kurtosis", "var_level_l", "vl", "mean_level_l", "ml"),
+                             f"C05:{variant}:reported-%s-changed-by-a-later-run", f"{variant}:read-after-the-next-run",
+                             {"regimes": regimes}, unjudged=wrong)
+            compared[0] += 1
+        state["held"] = None
 
     def run(ch):
-        traj, outcome, rec = run_once(sh, case, ch)
+        traj, outcome, rec, final = run_once(sh, case, ch)
         trajectories.add((traj, outcome))
         sh.count("runs")
         sh.outcome((traj, outcome))
         if len(trajectories) <= 2 and case.get("N0") == 5 and case.get("payoff") == "forward" and case.get("cv") == "none":
             sh.sample({"config": case, "choices": [(l, c) for (l, a, c) in ch.points if c], "regimes": rec.regime_log[:12],
                        "trajectory": [list(t) for t in traj][:8], "outcome": outcome})
+        with np.errstate(all="ignore"), warnings.catch_warnings():
+            warnings.simplefilter("ignore")
+            read_held()
+            if final is None or "refm" not in final or final["Nl"] is None:
+                return
+            variant, refm, detail = final["variant"], final["refm"], {"regimes": final["regimes"]}
+            if state["first"] and case.get("shard", [0, 1])[0] == 0:
+                orders = []
+                if "orders_first" in case:
+                    # (d) every order of the six quantities that starts with the case's first quantity
+                    q0 = case["orders_first"]
+                    orders = [(q0,) + p for p in itertools.permutations([q for q in QUANT if q != q0])]
+                else:
+                    # (c) every ordered pair first, the rest in canonical order
+                    for q1 in QUANT:
+                        for q2 in QUANT:
+                            if q1 != q2:
+                                orders.append((q1, q2) + tuple(q for q in QUANT if q not in (q1, q2)))
+                for order in orders:
+                    bad = compare_reported(sh, fresh_results(final), refm, order,
+                                           f"C05:{variant}:reported-%s-depends-on-the-reading-order", f"{variant}:fresh-results",
+                                           detail, stop_at_first=True, unjudged=final["wrong"])
+                    compared[0] += 1
+                    sh.count("reading-orders")
+                    if bad and "orders_first" not in case:
+                        break
+            state["first"] = False
+            state["held"] = (fresh_results(final), refm, variant, final["regimes"], final["wrong"])
 
     ex = core.ChoiceExplorer(run, bound=case["bound"], max_runs=200000)
     ex.explore(shard=tuple(case.get("shard", (0, 1))))
+    with np.errstate(all="ignore"), warnings.catch_warnings():
+        warnings.simplefilter("ignore")
+        read_held()
     if ex.capped:
         sh.cap(f"run cap hit for {case}")
     sh.states += len(trajectories)
     sh.transitions += ex.points_total
     sh.count("evaluations", 0)
-    if len(trajectories) >= 2 or case["sub"] == "fixed":
+    sh.cls(f"procs:{case.get('procs', 1)!r}")
+    if len(trajectories) >= 2 or case["sub"].startswith("fixed") or ("orders_first" in case and compared[0] >= 120):
         sh.nontriv()
